@@ -164,7 +164,8 @@ def shape(shape: t.Sequence[int]) -> Condition:
 
     Fails on objects that don't have a `shape` attribute.
     """
-    name = f"shape {tuple(shape)}"
+    shape = tuple(shape)  # (array shapes are tuples: a list would never compare equal)
+    name = f"shape {shape}"
     return Condition(
         lambda v: v.shape == shape, name,
         lambda exp, plural: f"{exp} with {name}"
